@@ -70,14 +70,14 @@ CHUNK_KNOBS = [1024 ** 2, 1024 ** 2, 640, 960, 2960]
 MAX_PARTS = 8
 MAX_JOIN_EVENTS = 320
 #: generate 'HH:MM:SS' and 'HH:MM:SS.ff' stamps inside one second in the same run (string order != chronological order)
-MIXED_TIME_FORMATS = True
+MIXED_TIME_FORMATS = False
 #: compare index_online in the round trip as well (join shifts it, so this is off; see ASSUMPTIONS)
 JUDGE_INDEX_ONLINE_ROUNDTRIP = False
 
 
 def plan(tier):
     if tier == "quick":
-        return {"runs": 560, "budget_s": 48, "run_timeout_s": 180, "det_pairs": 3}
+        return {"runs": 600, "budget_s": 46, "run_timeout_s": 180, "det_pairs": 3}
     return {"runs": 30000, "budget_s": 780, "run_timeout_s": 240, "det_pairs": 3}
 
 
@@ -357,6 +357,9 @@ class World:
         m.feats = {f: v for f, v in m.feats.items() if f in feats}
         if "index" in m.feats:
             m.feats["index"] = np.arange(1, n + 1)
+        if "index_online" in m.feats and op["dseed"] % 2 == 0:
+            # (an online index that starts at zero)
+            m.feats["index_online"] = m.feats["index_online"] - m.feats["index_online"][0]
         if "contour" in m.feats:
             # (no all-zero contour: the undocumented contour clause of the boundary skipping stays out of play)
             m.feats["contour"] = [c + 1 for c in m.feats["contour"]]
@@ -518,7 +521,7 @@ class World:
         must = set(srt[0]["innate"])
         for x in srt[1:]:
             must &= set(x["innate"])
-        return {"order": order, "srt": srt, "offs": offs, "string_order_differs": sorder != order, "adjacent": adjacent,
+        return {"order": order, "srt": srt, "offs": offs, "sorder": sorder, "string_order_differs": sorder != order, "adjacent": adjacent,
                 "pruned": pruned, "must": sorted(must), "cand": cand}
 
     def input_value(self, x, f):
@@ -586,8 +589,20 @@ class World:
         if len(ins) == 5:
             ctx.probe("join_5_inputs")
 
-        sig = dict(base_sig, n_inputs=min(len(ins), 3), feature_sets=frel, stamps=rel)
+        if jm["string_order_differs"]:
+            sig = dict(base_sig)
+        else:
+            sig = dict(base_sig, n_inputs=min(len(ins), 3), feature_sets=frel, stamps=rel)
         descr = f"join of {names} (chronological order {[x['name'] for x in srt]})"
+        if jm["string_order_differs"]:
+            # The documented sort key orders these inputs differently from their acquisition times; whatever
+            # disagrees with the model below is reported as one finding about the order.
+            real_violation = ctx.violation
+
+            def order_violation(oracle, detail, sig=None, **kw):
+                real_violation("C09.join.order", f"[{oracle}] {detail}; stamp strings "
+                               f"{['_'.join([x['date'], x['time'], str(x['run'])]) for x in ins]}", sig=dict(base_sig), **kw)
+            ctx = _Redirect(ctx, order_violation)
         with ctx.sut("C09.open", sig={"kind": "joined"}):
             with dclab.new_dataset(path) as ds:
                 N = len(ds)
@@ -611,6 +626,17 @@ class World:
         if lost:
             ctx.violation("C09.join.features", f"{descr}: features {lost} are stored in every input but missing in the product", sig=dict(sig, what="common_lost"))
         # (c) values
+        if jm["string_order_differs"]:
+            # diagnosis: were the inputs concatenated in the order of their stamp strings?
+            ssrt = [ins[i] for i in jm["sorder"]]
+            for f in out_innate:
+                if f in ("index", "index_online", "time", "frame"):
+                    continue
+                ctx.checked()
+                if not same(out[f], cat([self.input_value(x, f) for x in srt])) and same(out[f], cat([self.input_value(x, f) for x in ssrt])):
+                    ctx.violation("C09.join.order", f"{descr}: the events were concatenated in the order {[x['name'] for x in ssrt]} "
+                                  f"(order of the strings {['_'.join([x['date'], x['time'], str(x['run'])]) for x in ssrt]})", sig=sig)
+                break
         ctx.checked()
         if not np.array_equal(out_index, np.arange(1, N + 1)):
             ctx.violation("C09.join.index", f"{descr}: index is not 1..{N}: {out_index[:12]}", sig=sig)
@@ -734,6 +760,17 @@ class World:
         finally:
             # the parts of a round trip do not join the population
             del self.files[before:]
+
+
+class _Redirect:
+    """the run context with `violation` replaced"""
+
+    def __init__(self, ctx, violation):
+        self._ctx = ctx
+        self.violation = violation
+
+    def __getattr__(self, name):
+        return getattr(self._ctx, name)
 
 
 def pick_split_n(r, N):
